@@ -53,6 +53,9 @@ pub enum Kind {
     /// neighbours, a mix of evaluated and unevaluated ones (harness component + `evaluate` +
     /// `update_best_individual`)
     EvalMix,
+    /// a large initialisation (population x dimension between 2^14 and 2^15 elements: code that
+    /// switches strategy at a size threshold), evaluated and re-evaluated
+    BigInit,
 }
 
 pub const SHIPPED: [Kind; 21] = [
@@ -90,12 +93,13 @@ impl Kind {
             Kind::DeVariants => "de-variants",
             Kind::GaVariants => "ga-variants",
             Kind::EvalMix => "evaluation-of-mixed-populations",
+            Kind::BigInit => "large-permutation-initialisation",
         }
     }
     pub fn family(self) -> Family {
         match self {
             Kind::BinaryGa | Kind::EvalMix => Family::Bin,
-            Kind::PermSa | Kind::PermLs | Kind::PermIls | Kind::PermRs | Kind::PermRw => Family::Perm,
+            Kind::PermSa | Kind::PermLs | Kind::PermIls | Kind::PermRs | Kind::PermRw | Kind::BigInit => Family::Perm,
             Kind::AntSystem | Kind::Mmas => Family::Tsp,
             _ => Family::Real,
         }
@@ -575,6 +579,12 @@ where
     P: HProblem + VectorProblem<Element = usize> + TravellingSalespersonProblem,
 {
     match c.kind {
+        Kind::BigInit => Ok(Configuration::builder()
+            .do_(initialization::RandomPermutation::new(c.pu("population_size")))
+            .evaluate()
+            .update_best_individual()
+            .while_(cond, |b| b.evaluate().update_best_individual())
+            .build()),
         Kind::PermSa => sa::permutation_sa(sa::PermutationProblemParameters { t_0: c.p("t_0"), alpha: c.p("alpha"), num_swap: c.pu("num_swap") }, cond),
         Kind::PermLs => ls::permutation_ls(ls::PermutationProblemParameters { num_neighbors: c.pu("num_neighbors"), num_swap: c.pu("num_swap") }, cond),
         Kind::PermIls => ils::permutation_ils(
@@ -641,6 +651,7 @@ pub fn gen_case(g: &mut Gen, kind: Kind, o: &GenOpts) -> TCase {
         Family::Real => ProblemSpec::Real(gen_real(g, penalty, 5)),
         Family::Bin => ProblemSpec::Bin(gen_bin(g, penalty)),
         // swap mutation needs 2 < num_swap < dimension
+        Family::Perm if kind == Kind::BigInit => ProblemSpec::Tsp(gen_tsp(g, false, 64, 64, false)),
         Family::Perm => ProblemSpec::Tsp(gen_tsp(g, penalty, 4, 8, false)),
         Family::Tsp => {
             let extreme = g.chance(0.3);
@@ -719,6 +730,9 @@ pub fn gen_case(g: &mut Gen, kind: Kind, o: &GenOpts) -> TCase {
         }
         Kind::EvalMix => {
             set("mix_max", (1 + g.below(8)) as f64);
+        }
+        Kind::BigInit => {
+            set("population_size", (200 + g.below(313)) as f64);
         }
         Kind::Pso => {
             set("num_particles", (1 + g.below(12)) as f64);
